@@ -2,6 +2,7 @@ package streams
 
 import (
 	"github.com/lmorg/murex/lang/types"
+	"github.com/lmorg/murex/utils/verifhook"
 )
 
 // Shamelessly stolen from https://blog.golang.org/go-slices-usage-and-internals
@@ -70,6 +71,7 @@ func (stdin *Stdin) GetDataType() (dt string) {
 
 		fin := stdin.dependents < 1
 		stdin.mutex.Unlock()
+		verifhook.Yield("streams.GetDataType.poll")
 
 		//if atomic.LoadInt32(&stdin.dependents) < 1 {
 		if fin {
@@ -87,6 +89,7 @@ func (stdin *Stdin) SetDataType(dt string) {
 	}
 
 	//stdin.dtLock.Lock()
+	verifhook.Yield("streams.SetDataType")
 	stdin.mutex.Lock()
 	if stdin.dataType == "" {
 		stdin.dataType = dt
